@@ -28,8 +28,12 @@ ConfigSpace == {[present |-> FALSE]} \cup
       sc \in {NoneS, <<"explicit_euler">>, <<"bogus_scheme">>, <<>>}, dl \in {NoneV, "1", "0"}, pf \in {NoneV, "none"},
       pb \in {NoneV, "jax"}, cf \in {NoneV, "none"}, ct \in {NoneV, ".c"}, st \in {NoneS, <<"y">>, <<>>}}
 
-VARIABLES pc, cmd, flags, config, model, eff, files, exit
-vars == <<pc, cmd, flags, config, model, eff, files, exit>>
+\* project: the directory the command runs in is a project root whose pyproject.toml has a [tool.gotranx] table.
+\* docs/config.md: that file is the configuration - unless --config names another file, which then is (alone)
+ProjCfg == [present |-> TRUE, scheme |-> <<"generalized_rush_larsen">>, delta |-> "0.5", pyformat |-> NoneV, pybackend |-> NoneV,
+            cformat |-> NoneV, cto |-> ".c", stiff |-> <<"y">>]
+VARIABLES pc, cmd, flags, config, project, model, eff, files, exit
+vars == <<pc, cmd, flags, config, project, model, eff, files, exit>>
 
 Relevant(c, f) ==   \* flags a command does not have are left at "-"
   /\ (c # "ode2py" => f.backend = NoneV)
@@ -39,13 +43,15 @@ Relevant(c, f) ==   \* flags a command does not have are left at "-"
   /\ (c = "convert" => f.format = NoneV /\ f.to # NoneV)
 Init == /\ pc = "args" /\ cmd \in Cmds /\ flags \in {f \in FlagSpace : TRUE} /\ Relevant(cmd, flags)
         /\ config \in ConfigSpace /\ (cmd = "convert" => ~config.present)
+        /\ project \in BOOLEAN /\ (cmd = "convert" => ~project)
         /\ model \in Models /\ eff = [none |-> TRUE] /\ files = {} /\ exit = -1
 
 Default(c, o) == CASE o = "delta" -> "1e-8" [] o = "format" -> (IF c = "ode2c" THEN "clang-format" ELSE "black")
                    [] o = "backend" -> "numpy" [] o = "to" -> (IF c = "ode2c" THEN ".h" ELSE ".py")
 FlagOr(c, o, v) == IF v = NoneV THEN Default(c, o) ELSE v
-Cfg(field, fallback) == IF config.present /\ config[field] # NoneV THEN config[field] ELSE fallback
-CfgS(field, fallback) == IF config.present /\ config[field] # NoneS THEN config[field] ELSE fallback
+EffCfg == IF config.present THEN config ELSE IF project THEN ProjCfg ELSE [present |-> FALSE]
+Cfg(field, fallback) == IF EffCfg.present /\ EffCfg[field] # NoneV THEN EffCfg[field] ELSE fallback
+CfgS(field, fallback) == IF EffCfg.present /\ EffCfg[field] # NoneS THEN EffCfg[field] ELSE fallback
 IsC == cmd = "ode2c" \/ (cmd = "convert" /\ flags.to \in {".c", "c"})
 IsPy == cmd = "ode2py" \/ (cmd = "convert" /\ flags.to \in {".py", "py", "python"})
 
@@ -58,26 +64,26 @@ ReadConfig ==
              backend |-> IF cmd = "convert" THEN (IF flags.jax THEN "jax" ELSE "numpy") ELSE Cfg("pybackend", FlagOr(cmd, "backend", flags.backend)),
              suffix |-> IF IsC THEN Cfg("cto", IF cmd = "convert" THEN ".c" ELSE FlagOr("ode2c", "to", flags.to)) ELSE ".py",
              stem |-> IF flags.outname = NoneV THEN "model" ELSE flags.outname]
-  /\ pc' = "validate" /\ UNCHANGED <<cmd, flags, config, model, files, exit>>
+  /\ pc' = "validate" /\ UNCHANGED <<cmd, flags, config, project, model, files, exit>>
 \* Validate: an unknown scheme name is refused before anything is read
 Validate ==
   /\ pc = "validate"
   /\ IF \E i \in 1..Len(eff.scheme) : eff.scheme[i] = "bogus_scheme"
      THEN pc' = "done" /\ exit' = 1 ELSE pc' = "load" /\ exit' = exit
-  /\ UNCHANGED <<cmd, flags, config, model, eff, files>>
+  /\ UNCHANGED <<cmd, flags, config, project, model, eff, files>>
 LoadModel ==
   /\ pc = "load"
   /\ IF model = "valid" THEN pc' = "generate" /\ exit' = exit ELSE pc' = "done" /\ exit' = 1
-  /\ UNCHANGED <<cmd, flags, config, model, eff, files>>
+  /\ UNCHANGED <<cmd, flags, config, project, model, eff, files>>
 \* Generate may fail (formatter unavailable): then nothing is written
 CONSTANT FormatterAvailable     \* set of formatter names that work in this environment
 Generate ==
   /\ pc = "generate"
   /\ IF eff.format \in FormatterAvailable THEN pc' = "write" /\ exit' = exit ELSE pc' = "done" /\ exit' = 1
-  /\ UNCHANGED <<cmd, flags, config, model, eff, files>>
+  /\ UNCHANGED <<cmd, flags, config, project, model, eff, files>>
 Write ==
   /\ pc = "write" /\ files' = files \cup {eff.stem \o eff.suffix} /\ pc' = "done" /\ exit' = 0
-  /\ UNCHANGED <<cmd, flags, config, model, eff>>
+  /\ UNCHANGED <<cmd, flags, config, project, model, eff>>
 Next == ReadConfig \/ Validate \/ LoadModel \/ Generate \/ Write
 Spec == Init /\ [][Next]_vars
 Done == pc = "done"
@@ -87,12 +93,13 @@ C18_InvalidExitsNonZero == Done /\ model # "valid" => (exit # 0 /\ files = {})
 C18_ExitZeroIffWritten == Done => ((exit = 0) <=> (files # {}))
 C18_EffectiveOptions == pc \in {"validate", "load", "generate", "write", "done"} =>
      /\ (config.present /\ config.delta # NoneV => eff.delta = config.delta)
-     /\ (~config.present => eff.delta = FlagOr(cmd, "delta", flags.delta))
+     /\ (~config.present /\ project => eff.delta = ProjCfg.delta)
+     /\ (~config.present /\ ~project => eff.delta = FlagOr(cmd, "delta", flags.delta))
      /\ eff.remove_unused = flags.remove_unused
 
-Emit == Done => PrintT(ToJson([cmd |-> cmd, flags |-> flags, config |-> config, model |-> model, eff |-> eff,
+Emit == Done => PrintT(ToJson([cmd |-> cmd, flags |-> flags, config |-> config, project |-> project, model |-> model, eff |-> eff,
                                files |-> files, exit_zero |-> (exit = 0)]))
-Hash == Len(ToString(flags)) + 3 * Len(ToString(config)) + 7 * Len(cmd) + Len(model)
+Hash == Len(ToString(flags)) + 3 * Len(ToString(config)) + 7 * Len(cmd) + Len(model) + (IF project THEN 1 ELSE 0)
 CONSTANT EmitMod
 EmitSome == (Done /\ Hash % (IF cmd = "convert" THEN 3 ELSE EmitMod) = 0) => Emit
 =============================================================================
